@@ -36,7 +36,7 @@ pub fn random_case(r: &mut Rng) -> Case {
   let src = match r.below(12) {
     0 | 1 => Src::Interval(p),
     2 | 3 => Src::IntervalAt(*r.pick(&[-20i64, 0, 10, 250, 3_600_000]), p),
-    4 => Src::Timer(V::I(5), [0, 1, 7, 100][r.below(4)]),
+    4 => if r.chance(1, 3) { Src::TimerUs(V::I(5), [400, 900, 999, 1500][r.below(4)]) } else { Src::Timer(V::I(5), [0, 1, 7, 100][r.below(4)]) },
     5 => Src::TimerAt(V::I(5), *r.pick(&[-20i64, 0, 10, 3_600_000])),
     6 => Src::Future(301, scripted(r, false, 1)),
     7 => Src::FutureRes(301, scripted(r, true, 1)),
@@ -49,7 +49,7 @@ pub fn random_case(r: &mut Rng) -> Case {
       Src::StreamRes(301, long_or_short(r, true, long))
     }
   };
-  let timed = matches!(src, Src::Interval(_) | Src::IntervalAt(..) | Src::Timer(..) | Src::TimerAt(..));
+  let timed = matches!(src, Src::Interval(_) | Src::IntervalAt(..) | Src::Timer(..) | Src::TimerUs(..) | Src::TimerAt(..));
   let gap = if timed && r.chance(1, 3) { [p * MS / 2, p * MS - 1, p * MS, 3 * p * MS + 1, 3 * MS][r.below(5)] } else { 0 };
   let mut wakes = vec![];
   if let Src::Future(id, s) | Src::FutureRes(id, s) | Src::Stream(id, s) | Src::StreamRes(id, s) = &src {
@@ -182,13 +182,14 @@ pub fn judge(c: &Case, o: &Result<Obs, String>) -> Option<(String, String, serde
       }
       None
     }
-    Src::Timer(v, _) | Src::TimerAt(v, _) => {
+    Src::Timer(v, _) | Src::TimerUs(v, _) | Src::TimerAt(v, _) => {
       if notes != vec![N::Next(v.clone()), N::Complete] {
         return bad("wrong_values", "timer must emit its item once and complete".into());
       }
       let g = c.gap;
       let (lo, hi): (u64, u64) = match &c.src {
         Src::Timer(_, d) => ((*d * MS).max(g), (*d * MS).max(g)),
+        Src::TimerUs(_, d) => ((*d * 1000).max(g), (*d * 1000).max(g)),
         Src::TimerAt(_, off) if *off > 0 => ((*off as u64 * MS).saturating_sub(o.eps).max(g), (*off as u64 * MS).max(g)),
         _ => (g, g),
       };
